@@ -2,7 +2,7 @@ SPECIFICATION Spec
 CONSTANTS
   Mods = {"m1", "m2"}
   PNames = {"value", "target", "x"}
-  ExtraM = {"zz"}
+  ExtraM = {}
   ExtraP = {}
   CmdP = {}
   Wires = {"w1", "wbad"}
